@@ -43,6 +43,75 @@ impl Prop for Typed {
     }
 }
 
+/// The same matrix on files written by the reference encoder (layouts the library's writer never emits).
+pub struct TypedForeign;
+impl Prop for TypedForeign {
+    type Case = vlib::refcodec::FileModel;
+    fn name() -> &'static str {
+        "typed-foreign"
+    }
+    fn rule() -> &'static str {
+        "proptest: files of one concrete type from the reference encoder (zero parts, empty parts, zero points, absent M blocks, \
+         24-byte PointZ, arbitrary boxes and record numbers, trailing bytes); the full 13-type request matrix as in `typed`, with \
+         the generic read as the reference for values and for the type every record reports. Non-trivial: n>=1"
+    }
+    fn check(m: &vlib::refcodec::FileModel, ctx: &mut Ctx) -> Result<(), Fail> {
+        let enc = refcodec::encode(m);
+        let n = m.recs.len();
+        if n >= 1 {
+            ctx.nontrivial();
+        }
+        ctx.class(&format!("actual={}", m.ty.name()));
+        let generic = open_mem(&enc.shp, None)
+            .and_then(|r| r.read())
+            .map_err(|e| Fail::new("read-error", format!("generic read: {}", err_str(&e))))?;
+        ensure!(generic.len() == n, "count", "generic read returns {} of {} records", generic.len(), n);
+        for (i, s) in generic.iter().enumerate() {
+            ensure!(
+                variant_ty(s) == m.ty && ty_of(s.shapetype()) == m.ty,
+                "generic-shapetype",
+                "record {} ({}) of a {} file read as variant {:?} reporting {:?}",
+                i,
+                m.recs[i].geom.short(),
+                m.ty.name(),
+                variant_ty(s),
+                s.shapetype()
+            );
+        }
+        let gviews = shape_views(&generic);
+        for s_ty in ALL13 {
+            dispatch(
+                s_ty,
+                Cell {
+                    shp: &enc.shp,
+                    shx: &enc.shx,
+                    actual: m.ty,
+                    n,
+                    generic: &gviews,
+                    mixed: &[],
+                },
+            )?;
+        }
+        Ok(())
+    }
+}
+impl RandomProp for TypedForeign {
+    fn strategy(_env: &Env) -> BoxedStrategy<vlib::refcodec::FileModel> {
+        crate::c03::file_model(4, 4, 5)
+            .prop_filter_map("typed file", |mut m| {
+                if m.ty == Ty::Null {
+                    return None;
+                }
+                m.recs.retain(|r| r.geom.ty != Ty::Null);
+                Some(m)
+            })
+            .boxed()
+    }
+    fn cases(env: &Env) -> u64 {
+        env.n(13 * 1500, 13 * 60_000)
+    }
+}
+
 impl RandomProp for Typed {
     fn strategy(_env: &Env) -> BoxedStrategy<TypedCase> {
         let cfg = |p| gen::GenCfg::new(p, true, 4, 8);
